@@ -27,7 +27,7 @@ import (
 
 func init() {
 	vc.Register(&vc.Check{ID: "C01", Level: "model_checking", Run: run, Replay: replay, QuickSec: 110, ThoroSec: 1150,
-		Rule:   "states = distinct symbolic attacker tuples (profile; per-DG provenance; hash list; messageDigest; signing time; signature; DS certificate; trust store; CardSecurity) reached by BFS from the genuine document (roots: trust store = genuine CSCA alone / with unrelated countries) through attacker actions (transitions), depth 3 quick / 4 thorough; every state is concretised to files and run through passiveauth.PassiveAuth (traces). Oracle: Success=true => tuple valid (ground truth computed from the tuple only). Plus: every byte of every authenticated region x 8 bit flips (quick) / 255 substitutions (thorough); ECDSA (r,s) range classes on 11 curves; master-list tuple product. distinct_nontrivial = distinct concretised inputs (state tuples, mutated byte positions, range-class cases)",
+		Rule:   "states = distinct symbolic attacker tuples (profile; per-DG provenance; hash list; messageDigest; signing time; signature; DS certificate; trust store; CardSecurity) reached by BFS from the genuine document (roots: trust store = genuine CSCA alone / with unrelated countries) through attacker actions (transitions), depth 3 quick / 4 thorough; every state is concretised to files and run through passiveauth.PassiveAuth (traces). Oracle: Success=true => tuple valid (ground truth computed from the tuple only). Plus: every byte of every authenticated region x 8 bit flips (quick) / 255 substitutions (thorough); ECDSA (r,s) range classes on 11 curves; master-list tuple product; security objects with 1..3 SignerInfos over 7 signer kinds in every order (each signer judged at its own stated time). distinct_nontrivial = distinct concretised inputs (state tuples, mutated byte positions, range-class cases)",
 		Assume: []string{"the attacker holds neither the genuine CSCA key nor a genuine DS key; SHA-1..512, RSA and ECDSA are unforgeable (only logical bypasses are searched)", "refpki (independent of gmrtd) builds the files; self-tested against crypto/x509, crypto/rsa, crypto/ecdsa"}})
 }
 
@@ -812,6 +812,7 @@ func run(c *vc.Ctx) {
 	runSweep(c)
 	runSigRange(c)
 	runMasterList(c)
+	runMultiSigner(c)
 }
 
 // ------------------------------------------------------------------------------------------------
@@ -1403,6 +1404,24 @@ func replay(c *vc.Ctx, raw json.RawMessage) string {
 		return "EnsureKeys: " + err.Error()
 	}
 	switch kind.Kind {
+	case "multisigner":
+		var m msCase
+		if err := json.Unmarshal(doc.Case, &m); err != nil {
+			return err.Error()
+		}
+		acc, v, herr := msRun(m)
+		if herr != nil {
+			return herr.Error()
+		}
+		if acc {
+			for _, k := range m.Signers {
+				if !msValid(k) {
+					c.Violation(doc.Section, "accept-invalid/signer-set-contains/"+k, fmt.Sprintf("Success for signers %v", m.Signers), m, nil)
+					break
+				}
+			}
+		}
+		return fmt.Sprintf("signers %v -> success=%v stage=%s err=%s", m.Signers, acc, v.Stage, v.Err)
 	case "state":
 		var sc stateCase
 		if err := json.Unmarshal(doc.Case, &sc); err != nil {
